@@ -226,6 +226,10 @@ func c04Scan(model gm.G, g geom.Geometry, lib, mixed []byte, cx *h.Ctx) *h.Failu
 	if !ok || !bytes.Equal(vb, lib) {
 		return h.Failf("wkb/value-differs", "Geometry.Value() is not AsBinary() for %s", model)
 	}
+	// which geometries Scan accepts depends on XY only: non-finite or arbitrary Z/M values do not make a geometry invalid
+	if (g.Validate() == nil) != (g.Force2D().Validate() == nil) {
+		return h.Failf("wkb/validity-depends-on-zm", "Validate() = %v but %v for the same geometry without its Z/M values: %s", g.Validate(), g.Force2D().Validate(), model)
+	}
 	if g.Validate() != nil {
 		cx.Class("scan=skipped-invalid")
 		return nil
@@ -356,7 +360,35 @@ func TestC04(t *testing.T) {
 		Assumptions:     []string{"independent WKB codec (internal/codec/wkb.go) follows ISO WKB", "gm model <-> geom conversion through public constructors/accessors is faithful (checked per case by read-back)"},
 		Gen:             c04Gen,
 		Check:           c04Check,
+		Enumerate:       c04Enumerate,
 	})
+}
+
+// c04Enumerate: wide collections (more members than any drawn structure has): 100, 101, 150, 1000 members of one
+// collection, and a collection whose members' own member counts add up past 100.
+func c04Enumerate(cx *h.Ctx, yield func(C04Case)) []string {
+	pts := func(n int) []gm.G {
+		out := make([]gm.G, n)
+		for i := range out {
+			out[i] = gm.G{T: gm.Point, Co: gm.Fs(float64(i), float64(2*i))}
+		}
+		return out
+	}
+	for _, n := range []int{100, 101, 150, 1000} {
+		lines := make([]gm.G, n)
+		for i := range lines {
+			lines[i] = gm.G{T: gm.LineString, Co: gm.Fs(float64(i), 0, float64(i), 1)}
+		}
+		for _, g := range []gm.G{
+			{T: gm.MultiPoint, Mem: pts(n)},
+			{T: gm.GeometryCollection, Mem: pts(n)},
+			{T: gm.MultiLineString, Mem: lines},
+			{T: gm.GeometryCollection, Mem: append(pts(69), gm.G{T: gm.MultiPoint, Mem: pts(n / 2)}, gm.G{T: gm.GeometryCollection, Mem: lines[:n/3]})},
+		} {
+			yield(C04Case{G: g, Orders: []bool{false, true}, Valid: true})
+		}
+	}
+	return []string{"collections of 100, 101, 150 and 1000 members (MultiPoint, MultiLineString, GeometryCollection, nested sums past 100)"}
 }
 
 var _ = fmt.Sprintf
